@@ -19,7 +19,8 @@ NAMES = ["a", "b", "c", "cell__a", "cell-b", "t-x", "t_y", "wavelength", "o11", 
          "fit-tolerance", "z", "Y", "distance", "y-center", "tilt_x", "chi", "no-bins", "p.q",
          "k9"]
 STR_PLAIN = ["P21/c", "x=y", "0x10", "-", "abc", "Fm-3m", "1,5", "True", "None", "#c", "a-b",
-             "file.par", "e", "--5", "1e", "1.2.3", "1/2", "0b1", "five", "_1"]
+             "file.par", "e", "--5", "1e", "1.2.3", "1/2", "0b1", "five", "_1",
+             "\u03b1-Fe", "\u00c5", "H\u2082O", "caf\u00e9", "\u65e5\u672c", "\u03a9/2", "\u00b5m", "\u20ac\u20ac"]
 STR_NUMERIC = ["12", "007", "+5", "5.", "1e5", "1_0", "inf", "1e400", "-0", "-0.0", ".5", "1E-3",
                "-12", "0", "3.25", "Infinity", "-inf", "1e22", "9007199254740993", "0.1",
                "1" + "0" * 320, "-" + "9" * 400]
@@ -181,15 +182,16 @@ class SimCrash(BaseException):
 
 
 class SimRaw(io.RawIOBase):
-    def __init__(self, disk, path, mode):
+    def __init__(self, disk, path, mode, plus=False):
         io.RawIOBase.__init__(self)
         self.disk = disk
         self.path = path
-        self._w = mode in ("w", "a")
-        self._r = mode == "r"
+        self._w = mode in ("w", "a") or plus
+        self._r = mode == "r" or plus
+        self._append = mode == "a"
         self.pos = 0
         self.name = path
-        self.mode = "wb" if self._w else "rb"
+        self.mode = ("rb+" if plus else "rb") if mode == "r" else (mode + "b" + ("+" if plus else ""))
         if mode == "w":
             disk.files[path] = bytearray()
         elif mode == "a":
@@ -205,7 +207,33 @@ class SimRaw(io.RawIOBase):
         return self._w
 
     def seekable(self):
-        return False
+        return True
+
+    def tell(self):
+        return self.pos
+
+    def seek(self, offset, whence=0):
+        if whence == 0:
+            np_ = offset
+        elif whence == 1:
+            np_ = self.pos + offset
+        else:
+            np_ = len(self.buf) + offset
+        if np_ < 0:
+            raise OSError(errno.EINVAL, "negative seek position")
+        self.pos = np_
+        return self.pos
+
+    def truncate(self, size=None):
+        if not self._w:
+            raise io.UnsupportedOperation("truncate")
+        if size is None:
+            size = self.pos
+        if size < len(self.buf):
+            del self.buf[size:]
+        else:
+            self.buf.extend(b"\0" * (size - len(self.buf)))
+        return size
 
     def write(self, b):
         d = self.disk
@@ -231,17 +259,28 @@ class SimRaw(io.RawIOBase):
             if dec_[1] < n:
                 d.fire("short_write")
             n = max(1, min(n, dec_[1]))
+        if self._append:
+            self.pos = len(self.buf)
         if d.capacity is not None:
+            grow = max(0, self.pos + n - len(self.buf))
             room = d.capacity - d.used()
-            if room <= 0 and n > 0:
+            if grow > 0 and room <= 0:
                 d.fire("enospc")
                 d.fire("surfaced_in_" + phase)
                 d.unrecoverable = True
                 raise OSError(errno.ENOSPC, "simulated ENOSPC")
-            if n > room:
+            if grow > room:
+                n -= grow - room
+                if n <= 0:
+                    d.fire("enospc")
+                    d.fire("surfaced_in_" + phase)
+                    d.unrecoverable = True
+                    raise OSError(errno.ENOSPC, "simulated ENOSPC")
                 d.fire("enospc_partial")
-                n = room
-        self.buf += bytes(b[:n])
+        if self.pos > len(self.buf):
+            self.buf.extend(b"\0" * (self.pos - len(self.buf)))
+        self.buf[self.pos:self.pos + n] = bytes(b[:n])
+        self.pos += n
         return n
 
     def readinto(self, b):
@@ -312,7 +351,9 @@ def make_open(disk, real_open):
         m = mode.replace("t", "").replace("U", "")
         binary = "b" in m
         m = m.replace("b", "")
-        if "+" in m or m not in ("r", "w", "a", "x"):
+        plus = "+" in m
+        m = m.replace("+", "")
+        if m not in ("r", "w", "a", "x"):
             raise core.HarnessError("simulated disk: unsupported open mode %r" % mode)
         if disk.open_err:
             e = disk.open_err
@@ -326,14 +367,17 @@ def make_open(disk, real_open):
             if path in disk.files:
                 raise FileExistsError(errno.EEXIST, "File exists (simulated disk)", path)
             m = "w"
-        raw = SimRaw(disk, path, m)
+        raw = SimRaw(disk, path, m, plus)
         disk.open_raws.append(raw)
         bs = disk.bufsize if buffering in (-1, None) else buffering
         if bs == 0 and not binary:
             raise ValueError("can't have unbuffered text I/O")
         if bs == 0:
             return raw
-        buf = io.BufferedReader(raw, max(1, bs)) if m == "r" else io.BufferedWriter(raw, max(1, bs))
+        if plus:
+            buf = io.BufferedRandom(raw, max(1, bs))
+        else:
+            buf = io.BufferedReader(raw, max(1, bs)) if m == "r" else io.BufferedWriter(raw, max(1, bs))
         if binary:
             return buf
         t = SimText(buf, encoding or "utf-8", errors, newline, buffering == 1)
@@ -345,6 +389,74 @@ def make_open(disk, real_open):
             pass
         return t
     return sim_open
+
+
+def make_os_seams(disk):
+    """name -> replacement for the os / os.path functions a save or load might consult; paths outside the simulated
+    disk are delegated to the real functions"""
+    import os
+    import stat as _stat
+    real = {"exists": os.path.exists, "isfile": os.path.isfile, "getsize": os.path.getsize, "remove": os.remove,
+            "unlink": os.unlink, "rename": os.rename, "replace": os.replace, "stat": os.stat, "lstat": os.lstat,
+            "access": os.access}
+
+    def sim(pth):
+        try:
+            pth = os.fspath(pth)
+        except TypeError:
+            return None
+        if isinstance(pth, bytes):
+            pth = pth.decode()
+        return pth if isinstance(pth, str) and pth.startswith(SIM_PREFIX) else None
+
+    def exists(pth):
+        q = sim(pth)
+        return (q in disk.files) if q is not None else real["exists"](pth)
+
+    def isfile(pth):
+        q = sim(pth)
+        return (q in disk.files) if q is not None else real["isfile"](pth)
+
+    def getsize(pth):
+        q = sim(pth)
+        if q is None:
+            return real["getsize"](pth)
+        if q not in disk.files:
+            raise FileNotFoundError(errno.ENOENT, "No such file or directory (simulated disk)", q)
+        return len(disk.files[q])
+
+    def remove(pth, *a, **k):
+        q = sim(pth)
+        if q is None:
+            return real["remove"](pth, *a, **k)
+        if q not in disk.files:
+            raise FileNotFoundError(errno.ENOENT, "No such file or directory (simulated disk)", q)
+        del disk.files[q]
+
+    def rename(src, dst, *a, **k):
+        qs, qd = sim(src), sim(dst)
+        if qs is None and qd is None:
+            return real["rename"](src, dst, *a, **k)
+        if qs is None or qd is None:
+            raise OSError(errno.EXDEV, "cross-device link (simulated disk)")
+        if qs not in disk.files:
+            raise FileNotFoundError(errno.ENOENT, "No such file or directory (simulated disk)", qs)
+        disk.files[qd] = disk.files.pop(qs)
+
+    def stat(pth, *a, **k):
+        q = sim(pth)
+        if q is None:
+            return real["stat"](pth, *a, **k)
+        if q not in disk.files:
+            raise FileNotFoundError(errno.ENOENT, "No such file or directory (simulated disk)", q)
+        return os.stat_result((_stat.S_IFREG | 0o644, 1, 1, 1, 0, 0, len(disk.files[q]), 0, 0, 0))
+
+    def access(pth, mode, *a, **k):
+        q = sim(pth)
+        return (q in disk.files) if q is not None else real["access"](pth, mode, *a, **k)
+
+    return real, {"exists": exists, "isfile": isfile, "getsize": getsize, "remove": remove, "unlink": remove,
+                  "rename": rename, "replace": rename, "stat": stat, "lstat": stat, "access": access}
 
 
 # ----------------------------------------------------------------------------- generator
@@ -442,6 +554,9 @@ def generate(rng, tier, index):
             nm, cv = rng.choice(names), rng.chance(0.6)
             ops.append(["addpar", o, nm, enc(gen_value(rng, numstr)), rng.chance(0.4),
                         cv, enc(rng.choice([0.1, 1.0, 1e-3]))])
+            if rng.chance(0.3):
+                # the caller keeps its par objects, edits them in place and submits them again
+                ops[-1].append(rng.below(3))
             if cv and nm not in canvary.setdefault(o, []):
                 canvary[o].append(nm)
         elif k == "set":
@@ -564,6 +679,7 @@ def execute(trace):
     models = {}    # id -> _Model
     shared = {}    # caller-side dict objects that are reused across calls
     caller_lists = {}   # per parameters object: the one list object its caller keeps for set_varylist
+    held_pars = {}      # par objects the caller keeps and re-submits
     obs_flags = cfg.get("observe")
     paths = {}     # path -> ("ack"|"foreign", [(name, value)]) | ("unknown",)
     violation = None
@@ -647,10 +763,14 @@ def execute(trace):
         return raised, unrec
 
     last_replaced = [None]
+    import os as _os
+    os_real, os_sim = make_os_seams(disk)
     logging.disable(logging.CRITICAL)
     P.open = sim_open
     builtins.open = sim_open
     io.open = sim_open
+    for _k, _f in os_sim.items():
+        setattr(_os.path if _k in ("exists", "isfile", "getsize") else _os, _k, _f)
     try:
         try:
             site = "start"
@@ -686,9 +806,17 @@ def execute(trace):
                     m = models.get(oid)
                     touched = [oid]
                     if kind == "addpar":
-                        _, _, name, v, vary, can_vary, step = op
+                        _, _, name, v, vary, can_vary, step = op[:7]
                         v = dec(v)
-                        if kwcalls:
+                        if len(op) > 7 and op[7] is not None:
+                            hp = held_pars.get(op[7])
+                            if hp is None:
+                                hp = held_pars[op[7]] = P.par(name, v, vary=vary, can_vary=can_vary, stepsize=dec(step))
+                            else:
+                                hp.name, hp.value, hp.vary, hp.can_vary, hp.stepsize = name, v, vary, can_vary, dec(step)
+                            count("probe.caller_par_object_reused")
+                            K(o.addpar, ["par"], hp)
+                        elif kwcalls:
                             o.addpar(par=P.par(name=name, value=v, vary=vary, can_vary=can_vary, stepsize=dec(step)))
                         else:
                             o.addpar(P.par(name, v, vary=vary, can_vary=can_vary, stepsize=dec(step)))
@@ -704,8 +832,9 @@ def execute(trace):
                         # size of everything a save would write up to and including "name " in the documented
                         # format (sorted keys, "key value\n"); pure function of the model, no file is touched
                         keys_ = sorted(set(list(m.p.keys()) + [name]))
-                        before_ = sum(len(k_) + 1 + len(str(m.p[k_][0])) + 1 for k_ in keys_ if k_ < name)
-                        need = boundary + delta - (before_ + len(name) + 1) - 1     # minus the newline
+                        blen = lambda x_: len(str(x_).encode("utf-8"))   # noqa
+                        before_ = sum(blen(k_) + 1 + blen(m.p[k_][0]) + 1 for k_ in keys_ if k_ < name)
+                        need = boundary + delta - (before_ + blen(name) + 1) - 1     # minus the newline
                         if need < 1:
                             count("skip.set_aligned_no_room")
                             continue
@@ -873,6 +1002,7 @@ def execute(trace):
                             objs.clear()
                             models.clear()
                             caller_lists.clear()
+                            held_pars.clear()
                             gc.collect()
                             disk.open_raws[:] = []
                             disk.frozen = False
@@ -1026,6 +1156,8 @@ def execute(trace):
                          "detail": "%s at %s:%d" % (str(e)[:120], inside[-1].filename.split("/xfab/")[-1], inside[-1].lineno),
                          "op_index": len(events)}
     finally:
+        for _k, _f in os_real.items():
+            setattr(_os.path if _k in ("exists", "isfile", "getsize") else _os, _k, _f)
         builtins.open = real_open
         io.open = real_io_open
         if had_attr:
